@@ -723,34 +723,55 @@ def detect_variant():
     return v, flags
 
 
-def decoder_lock_structure():
-    """T1-style structural obligation for the DECODER side of the registry (the locked LTS of C14_registry_linearizable is
-    only the code if this holds): in newNamedStructDecoder the write lock is taken before the decoder is stored in
-    namedStructDecoderMap and is still held when decoder.fields is assigned; decodeField reads fields under RLock."""
-    body = func_body("io/struct_decoder.go", "func newNamedStructDecoder(")
+def lock_structure(path, ctor, store, assigns, reader, reads):
+    """the critical section of a lazily built struct coder: in [ctor] the write lock is taken before the coder is stored
+    ([store]) and is still held at the last of the assignments [assigns]; [reader] reads [reads] between RLock and RUnlock"""
+    body = func_body(path, ctor)
     problems = []
-    lock, store, assign = body.find(".Lock()"), body.find("registerNamedStructDecoder("), body.find(".fields =")
-    if min(lock, store, assign) < 0:
-        problems.append("newNamedStructDecoder: cannot find Lock(), registerNamedStructDecoder( and '.fields =' (unrecognised shape)")
+    name = ctor.split("func ")[1].rstrip("(")
+    lock, st = body.find(".Lock()"), body.find(store)
+    apos = [body.find(a) for a in assigns]
+    if lock < 0 or st < 0 or min(apos) < 0:
+        problems.append("%s: cannot find Lock(), %s and %s (unrecognised shape)" % (name, store, " / ".join(assigns)))
     else:
-        if not lock < store:
-            problems.append("the decoder is stored in namedStructDecoderMap before the write lock is taken")
-        if not store < assign:
-            problems.append("fields are assigned before the decoder is stored (unexpected order: the model publishes first)")
+        assign = max(apos)
+        if not lock < st:
+            problems.append("%s: the coder is published (%s) before the write lock is taken" % (name, store))
+        if not st < min(apos):
+            problems.append("%s: fields are assigned before the coder is published (unexpected order: the model publishes first)" % name)
         deferred = re.search(r"defer\s+\w+\.Unlock\(\)", body)
         unlock = body.find(".Unlock()")
         if deferred:
-            if not lock < deferred.start() < store:
-                problems.append("the deferred Unlock is not placed between Lock() and the publication")
+            if not lock < deferred.start() < st:
+                problems.append("%s: the deferred Unlock is not placed between Lock() and the publication" % name)
         elif unlock < 0 or unlock < assign:
-            problems.append("the write lock is released before decoder.fields is assigned")
+            problems.append("%s: the write lock is released before the last assignment" % name)
         if body.count(".Lock()") != 1 or body.count(".Unlock()") != 1:
-            problems.append("more than one Lock/Unlock in newNamedStructDecoder (the critical section may be split)")
-    rd = func_body("io/struct_decoder.go", "func (valdec *structDecoder) decodeField(")
-    rl, use, ru = rd.find(".RLock()"), rd.find(".fields["), rd.find(".RUnlock()")
-    if min(rl, use, ru) < 0 or not rl < use < ru:
-        problems.append("decodeField does not read valdec.fields between RLock() and RUnlock()")
+            problems.append("%s: more than one Lock/Unlock (the critical section may be split)" % name)
+    rd = func_body(path, reader)
+    rname = reader.split(") ")[1].rstrip("(")
+    rl, ru = rd.find(".RLock()"), rd.find(".RUnlock()")
+    for what in reads:
+        use = rd.find(what)
+        if min(rl, use, ru) < 0 or not rl < use < ru:
+            problems.append("%s does not read %s between RLock() and RUnlock()" % (rname, what))
+        if rd.count(what) != 1:
+            problems.append("%s reads %s more than once (a read outside the read lock)" % (rname, what))
     return problems
+
+
+def decoder_lock_structure():
+    """T1-style structural obligation for the DECODER side of the registry (the locked LTS of C14_registry_linearizable is
+    only the code if this holds)"""
+    return lock_structure("io/struct_decoder.go", "func newNamedStructDecoder(", "registerNamedStructDecoder(", [".fields ="],
+                          "func (valdec *structDecoder) decodeField(", [".fields["])
+
+
+def encoder_lock_structure():
+    """the same obligation for the ENCODER side (since /repo efd3d7f)"""
+    return lock_structure("io/struct_encoder.go", "func newNamedStructEncoder(", "registerNamedStructEncoder(",
+                          ["encoder.fields =", "encoder.metadata ="],
+                          "func (valenc *structEncoder) Write(", ["valenc.fields", "valenc.metadata"])
 
 
 def run_decoder_first_use(ctx, exe):
@@ -1038,6 +1059,8 @@ def run(ctx):
     corpus_cases(ctx, hook)
     structure = decoder_lock_structure()
     ctx.note("decoder_lock_structure", structure or "write lock spans publication and assignment; decodeField reads under RLock")
+    enc_structure = encoder_lock_structure()
+    ctx.note("encoder_lock_structure", enc_structure or "write lock spans publication and assignment; Write reads under RLock")
 
     cases = gen_eseq(ctx, 700 if quick else 6000)
     cases, byid = run_cases(ctx, "c14", cases, "eseq")
@@ -1101,6 +1124,14 @@ def run(ctx):
                    "by old_registry_refuted_enclosing" + (" (witness on the implementation: see %s)" % K_DEC_PUBLISH if found else ""),
                    {"failing_input": False, "correspondence": "structure of newNamedStructDecoder / decodeField vs Registry.step locked = true",
                     "problems": structure})
+    if enc_structure:
+        found = any(v[0] == K_PUBLISH for v in ctx.violations)
+        ctx.report("structure:encoder-lock-does-not-span-publication",
+                   "io/struct_encoder.go: " + "; ".join(enc_structure) + ". C14_registry_linearizable is proved for the LOCKED machine; with this "
+                   "critical section the code is the UNLOCKED machine of Props/C14.v part II (old_registry_refuted_enclosing / _mutual / "
+                   "_same_type)" + (" (witness on the implementation: see %s)" % K_PUBLISH if found else ""),
+                   {"failing_input": False, "correspondence": "structure of newNamedStructEncoder / structEncoder.Write vs Registry.step locked = true",
+                    "problems": enc_structure})
     ctx.note("exhaustive", False)
     ctx.note("disagreeing_cases", len(disagreements))
     ctx.note("traces_validated_against_impl", ctx.cov["evaluations"] - len(disagreements))
